@@ -459,6 +459,7 @@ func (v BV) String() string {
 }
 
 type MemObj struct {
+	MadeLen *BV // make([]T, n) with a symbolic n: the length term
 	Name  string
 	Lazy  bool   // cells are created on first read as sources named Name+path
 	Havoc bool   // contents unknown after an unmodelled bulk write
@@ -1662,6 +1663,9 @@ func (it *Interp) step(st *state, ins ssa.Instruction, depth int) {
 		if !ok {
 			o.Havoc = false
 			o.Lazy = false
+			if lv, isBV := it.val(st, x.Len).(BV); isBV {
+				o.MadeLen = &lv
+			}
 			st.regs[x] = SliceV{Obj: o, Len: -1}
 			return
 		}
